@@ -19,6 +19,7 @@ import (
 	"verif/gen/pegen"
 	"verif/internal/hx"
 	"verif/keys"
+	"verif/ref/der"
 	"verif/ref/refpe"
 )
 
@@ -77,7 +78,7 @@ func c13Units(tier string) []string {
 			u = append(u, fmt.Sprintf("blob-bytes#%s#%d", s, k))
 		}
 	}
-	return append(u, "short-strings#image", "short-strings#blob", "bigfiles")
+	return append(u, "short-strings#image", "short-strings#blob", "bigfiles", "scaling")
 }
 
 func c13DriveImage(x []byte) { c13DriveImageVia(bytes.NewReader(x)) }
@@ -171,6 +172,48 @@ func c13Run(c *hx.Ctx, tier, unit string) {
 		return nil
 	}
 	switch parts[0] {
+	case "scaling":
+		// time proportional to the input size: n and 8n sections / attributes / certificates / signer entries
+		scalingRun(c, "C13", "image driver", "image with n sections", 1024, func(n int) []byte {
+			secs := make([]pegen.Sec, n)
+			for i := range secs {
+				secs[i] = pegen.Sec{RawSize: 8 * (i % 3)}
+			}
+			return pegen.Build(pegen.Layout{PE32Plus: true, Lfanew: 0x40, Secs: secs, Trailing: 3})
+		}, c13DriveImage)
+		seed := p7LibSeeds()[0]
+		grow := func(what string) func(n int) []byte {
+			return func(n int) []byte {
+				t, err := p7Open(seed.Blob)
+				if err != nil {
+					return seed.Blob
+				}
+				switch what {
+				case "attributes":
+					for i := 0; i < n; i++ {
+						t.attrs.Children = append(t.attrs.Children, der.Cons(0x30, der.Prim(0x06, der.OID(1, 2, 3, uint64(i+1))), der.Cons(0x31, der.Prim(0x04, []byte{byte(i), byte(i >> 8)}))))
+					}
+				case "certificates":
+					for i := 0; i < n; i++ {
+						t.certs.Children = append(t.certs.Children, t.certs.Children[0].Clone())
+					}
+				case "signer entries":
+					for i := 0; i < n; i++ {
+						t.signers.Children = append(t.signers.Children, t.si.Clone())
+					}
+				}
+				return t.root.Encode()
+			}
+		}
+		for _, w := range []struct {
+			what string
+			n    int
+		}{{"attributes", 2048}, {"certificates", 256}, {"signer entries", 256}} {
+			for e := range c13BlobEntries {
+				e := e
+				scalingRun(c, "C13", c13BlobEntries[e], "blob with n additional "+w.what, w.n, grow(w.what), func(in []byte) { c13DriveBlob(e, in, seed.Detached) })
+			}
+		}
 	case "fields":
 		img := findSeed(parts[1])
 		fs := c13Fields(img)
